@@ -52,7 +52,7 @@ CHECKS = {
             "Exploration, complete: the stated domain is finite and fully enumerated in both tiers: closure of data-rate references, parameter lookup round trip, latest/unknown resolution, M = N+8 and N <= 242 (or the (0,0) not-available marker at its three legitimate places), repeater <= non-repeater, per-direction SF monotonicity, default channels / DR definitions / TX power / RX2 against the rule model. Payload-size values are judged only through the relations the property lists (no golden copy).",
             "Trusted: bandrules constants (US915 TX-power range accepts both published ranges), the verif snapshot hook being a faithful copy of the internal tables.",
             "DESIGN.md §4 C13"),
-    "C17": ("exhaustive Frequency / Percentage sweeps, rapid-generated HEXBytes, ISO8601Time, reflectively filled payload structs and key envelopes; round trip under stated equivalences; differential against an RFC 3394 model incl. all single-bit corruptions",
+    "C17": ("exhaustive Frequency / Percentage sweeps, rapid-generated HEXBytes, ISO8601Time, reflectively filled payload structs, the same payloads through the backend client calls over an in-process transport (bodies up to 300 kB, short reads) and key envelopes; round trip under stated equivalences; differential against an RFC 3394 model incl. all single-bit corruptions",
             "Exploration with exhaustive parts: every integer percent -10..200, every Hz up to 2 MHz (20 MHz thorough), the 100 Hz raster of the LoRa bands (up to 2^32 thorough) and the 2^32 boundary must survive json.Marshal/Unmarshal; generated values of the 20 payload structs and their building blocks must round-trip field by field (nil == empty, RawMessage JSON-semantic, instants to one second); NewKeyEnvelope must equal the reference wrap and Unwrap must succeed exactly when the reference integrity check does (all 192 bit flips, other KEKs).",
             "Trusted: ref.KeyWrap/KeyUnwrap (RFC 3394 vectors self-checked), own civil-date arithmetic for timestamps.",
             "DESIGN.md §4 C17"),
@@ -64,11 +64,11 @@ CHECKS = {
             "Exploration, complete for the invalid-index grid (14 bands x 6 accessors x 10 indices); histories of up to 30 operations are sampled. After every step the index sets, lookups and the snapshot must agree with the model; CFList content follows the custom-channel / enabled-mask rule; every frequency, data-rate, CFList and LinkADRReq the band hands out must encode and decode through RXParamSetupReq, NewChannelReq, DLChannelReq, PingSlotChannelReq, BeaconFreqReq, CFList and JoinAcceptPayload. Known finding K3 (ISM2400 frequencies vs. the five 100-Hz encoders) is excluded by class while its witness fails.",
             "Trusted: the transition model and valid-frequency definition in harness/c15; standard channels are read from the fresh band (their regional values are C13's subject).",
             "DESIGN.md §4 C15"),
-    "C16": ("rapid-generated worlds and requests through http.Handler.ServeHTTP judged by an independent end-device + network-server model; generated concurrent batches under the race detector compared with sequential answers",
+    "C16": ("rapid-generated worlds and requests through http.Handler.ServeHTTP judged by an independent end-device + network-server model, with repeat and re-provisioning histories; generated concurrent batches under the race detector compared with sequential answers",
             "Exploration: generated devices, KEK tables and join / rejoin 0-1-2 / HomeNS requests (plus bit-flip, wrong-key, unknown-device and 16 kinds of malformed requests) are served by the handler; the device model decrypts the join-accept, verifies the MIC, checks the echoed fields, unwraps the envelopes (RFC 3394 model) and compares the session keys with its own 1.0 / 1.1 derivation. The -race binary serves batches of 2..16 requests concurrently and requires answers byte-identical to sequential service. Known finding K4 (rejoin keys derived 1.0-style) is accepted as exactly one alternative key set and reported.",
             "Trusted: ref crypto models (CMAC, key wrap, join blocks), wire model; observed handler conventions listed in the package comment (NS KEK label = SenderID, JoinEUI = ReceiverID).",
             "DESIGN.md §4 C16"),
-    "C18": ("value-first generation from per-field bit-width tables (TS003-TS006), exhaustive for payloads of <= 1 byte and for all sub-byte field combinations, rapid-generated commands and 1-6 command sequences per package and direction, multicast keys against single-block AES models",
+    "C18": ("value-first generation from per-field bit-width tables (TS003-TS006), exhaustive for payloads of <= 1 byte and for all sub-byte field combinations, rapid-generated commands and 1-6 command sequences per package and direction with held-result histories, multicast keys against single-block AES models",
             "Exploration, exhaustive for all in-range values of the single-byte payloads and the sub-byte bit-fields of every multi-byte payload; wide fields, sequences, keys and addresses are sampled. Oracle: no panic, encoded length == Size() == specification length, decode gives the same command / sequence; McRootKey/McKEKey/McAppSKey/McNetSKey equal the TS005 AES derivations. Known finding K5 (DevVersionReq rejects a following command) is excluded by class with a witness.",
             "Trusted: the width tables in harness/c18/specs_test.go, ref multicast derivations over crypto/aes, the library decoder for the one unexported field nextFirmwareVersion.",
             "DESIGN.md §4 C18"),
